@@ -75,6 +75,10 @@ def template(rng: random.Random, bits=64, label_count=8) -> str:
                            "stos %al,%es:(%rdi)" if bits == 64 else "stos %al,%es:(%edi)",
                            "movsb %ds:(%rsi),%es:(%rdi)" if bits == 64 else "movsb %ds:(%esi),%es:(%edi)",
                            f"add {seg}:0x28,{rng.choice(full)}"])
+    if r < 0.70:
+        return prefixed(rng, bits)
+    if r < 0.74 and bits == 64:
+        return decorated(rng)
     op = rng.choice(two)
     form = rng.random()
     if form < 0.3:
@@ -90,6 +94,44 @@ def template(rng: random.Random, bits=64, label_count=8) -> str:
         return f"{op} {rng.choice(regs)},{mem(rng, bits)}"
     imm = rng.choice(IMMS[:5])
     return f"{op}{w} {imm},{mem(rng, bits)}"
+
+
+def prefixed(rng: random.Random, bits=64) -> str:
+    """Instructions objdump prints with a prefix token in front of the mnemonic (lock/rep*/notrack/bnd/data16/rex/segment)."""
+    full = R64 if bits == 64 else R32[:8]
+    di, si = ("%rdi", "%rsi") if bits == 64 else ("%edi", "%esi")
+    sfx = "q" if bits == 64 else "l"
+    r = rng.random()
+    if r < 0.3:
+        m = mem(rng, bits)
+        return rng.choice([f"lock inc{sfx} {m}", f"lock add {rng.choice(full)},{m}", f"lock cmpxchg {rng.choice(full)},{m}",
+                           f"lock xadd {rng.choice(full)},{m}", f"lock or{sfx} $0x1,{m}", f"lock dec{sfx} {m}"])
+    if r < 0.55:
+        return rng.choice([f"rep stos %al,%es:({di})", f"rep movsb %ds:({si}),%es:({di})", f"repz cmpsb %es:({di}),%ds:({si})",
+                           f"repnz scas %es:({di}),%al", "repz ret", f"rep movs{sfx} %ds:({si}),%es:({di})", f"rep stos %{'r' if bits == 64 else 'e'}ax,%es:({di})"])
+    if r < 0.7:
+        return rng.choice([f"notrack jmp *{rng.choice(full)}", f"notrack call *{rng.choice(full)}", "bnd ret", f"bnd jmp L{rng.randrange(8)}",
+                           f"bnd call L{rng.randrange(8)}"])
+    byte = rng.choice(["0x66", "0x66", "0x2e", "0x3e"] + (["0x48", "0x40"] if bits == 64 else []))
+    body = rng.choice(["int3", "clc", "hlt", "lahf", "cpuid", "nop", "ret", "leave", "cld", f"inc {rng.choice(full)}", f"push {rng.choice(full)}",
+                       f"mov {rng.choice(full)},{rng.choice(full)}", f"add $0x8,{rng.choice(full)}"])
+    return f".byte {byte}\n\t{body}"
+
+
+def decorated(rng: random.Random) -> str:
+    """AVX-512 operands with decorations glued to them: {1to16} broadcasts, {%k1} masks, {z}, {rn-sae} (64-bit only)."""
+    z = lambda: "%zmm" + str(rng.randrange(0, 8))  # noqa: E731
+    k = lambda: "{%k" + str(rng.randrange(1, 8)) + "}"  # noqa: E731
+    b = rng.choice(["%rax", "%rbx", "%rcx", "%rdx", "%rsi", "%rdi"])
+    i = rng.choice(["%rbx", "%rcx", "%rdx", "%rsi"])
+    c = rng.choice(["1", "2", "4", "8"])
+    d = rng.choice(["", "0x40", "0x10", "-0x40"])
+    m = rng.choice([f"{d}({b},{i},{c})", f"{d}({b})", f"{d}({b},{i},{c})"])
+    vm = f"{d}({b},{z()},{c})"
+    return rng.choice([
+        f"vaddps {m}{{1to16}},{z()},{z()}", f"vmovaps {z()},{m}{k()}", f"vgatherdps {vm},{z()}{k()}", f"vscatterdps {z()},{vm}{k()}",
+        f"vaddps {{rn-sae}},{z()},{z()},{z()}", f"vmovaps {z()},{z()}{k()}{{z}}", f"vaddps {m}{{1to16}},{z()},{z()}{k()}",
+        f"vcmpps $0x1,{m}{{1to16}},{z()},%k2{k()}", f"vpaddd {m}{{1to16}},{z()},{z()}{k()}{{z}}", f"vmulpd {m}{{1to8}},{z()},{z()}"])
 
 
 def _unary(rng, w, regs, bits):
